@@ -592,9 +592,10 @@ class SynGen:
     def obj(self):
         r = self.rng
         if r.random() < 0.2:
-            l1 = [self.bind() for _ in range(r.randint(0, 1))]
-            l2 = [self.bind() for _ in range(r.randint(0, 1))]
-            return ("objcomp", l1, self.expr(), False, self.expr(), l2, self.specs())
+            # every list-valued element comes in lengths 0, 1, 2 and 3 (order inside a list is part of the tree)
+            l1 = [self.bind() for _ in range(r.choice([0, 0, 1, 2, 3]))]
+            l2 = [self.bind() for _ in range(r.choice([0, 0, 1, 2, 3]))]
+            return ("objcomp", l1, self.expr(), r.random() < 0.15, self.expr(), l2, self.specs())
         members = []
         for _ in range(r.randint(0, 4)):
             k = r.random()
@@ -648,7 +649,7 @@ class SynGen:
         if k < 0.9:
             return r.choice([("superidx", self.expr()), ("insuper", self.expr())])
         if k < 0.93:
-            return ("local", [self.bind() for _ in range(r.randint(1, 2))], self.expr())
+            return ("local", [self.bind() for _ in range(r.choice([1, 1, 2, 3, 4]))], self.expr())
         if k < 0.96:
             return ("if", self.expr(), self.expr(), self.expr() if r.random() < 0.6 else None)
         if k < 0.97:
